@@ -8,8 +8,9 @@ Observations per case:
   1. the post-state document (identity classes renumbered) or the exception
      family + the post-state;
   2. the declarative expectation computed by the harness from a shadow copy of
-     the pre-state (wf flag, guard flag, expected document) - compared with the
-     extracted Coq spec (delete_spec / no_dup_no_disorder / wf_docb)."""
+     the pre-state (wf flag, guard flag, document-order flag, expected document)
+     - compared with the extracted Coq spec (delete_spec / no_dup_no_disorder /
+     doc_ordered / wf_docb)."""
 import random
 
 import docenc
@@ -22,13 +23,17 @@ CONFIG = {
              "one-character strings, anchored scalars aliased as mapping values / sequence elements / keys, empty "
              "containers, nested sequences, sets) x YAML Paths built from the loaded document to match >= 1 node: exact, "
              "negative index, wildcard, searches over the parent's children, **, [name()], slices, the root, and "
-             "Collector unions (same node twice, reversed order, node + ancestor, root + other).  non-trivial = at "
+             "Collector unions (same node twice, reversed order, node + ancestor, root + other); a quarter of the "
+             "documents hold anchored MAPPINGS (&m1 {..}), keys spelled like those anchor names in other mappings, "
+             "and mappings that merge them in (<<: *m1).  non-trivial = at "
              "least one coordinate gathered; distinct = distinct (document, path)."),
     "trusted_base": [
         "modelled, not verified: yamlpath/processor.py delete_nodes/delete_gathered_nodes/_delete_nodes "
         "(lines 685-812) on the gathered coordinates; the read side (_get_required_nodes) is NOT modelled: its "
         "NodeCoords are captured from the real run and handed to the model",
-        "the YAML-merge-key branch of _delete_nodes (parent.merge) is outside the model: generators emit no merge keys",
+        "the merge-key REMOVAL of _delete_nodes (`for (midx, merge_node) in parent.merge`) is outside the model; its "
+        "entry test IS modelled (Anchors.scan_for_anchors + is_ymk_anchor + `len(parent.merge) > 0`, Mutate.del_step_mg): "
+        "cases that enter it, and deletions inside a mapping that others merge in (ruamel propagates them), are skipped",
         "the harness' shadow copy + ShadowEncoder (harness/mutgen.py) as the independent judge",
     ],
     "assumptions": [
@@ -120,6 +125,21 @@ def delete_record(p, path):
     coords = state["top"]
     after = docenc.canon_doc_text(docenc.encode(p.data)[0])
     order = del_order(coords)
+    # YAML merge keys: the mappings whose .merge list was non-empty go to the model beside the document;
+    # outside the model (skipped): a deletion inside a mapping other mappings merge in (ruamel propagates it to
+    # the referring mappings), and the merge-key removal branch itself (parent has merge keys and parentref is
+    # the anchor name of some node - decided here on the pre-state, independently of the code)
+    merged = [x for x in shadow.keep if isinstance(x, dict) and shadow.merged.get(id(x))]
+    for nc in order:
+        if isinstance(nc.parent, dict):
+            if shadow.referred.get(id(nc.parent)):
+                rec["why"] = "merge-referent"
+                return rec
+            if shadow.merged.get(id(nc.parent)) and isinstance(nc.parentref, str) \
+                    and str.__str__(nc.parentref) in shadow.anchor_names:
+                rec["why"] = "merge-key-removal"
+                return rec
+    rec["mg_sexp"] = "(%s)" % " ".join("i%d" % enc.oids[id(x)] for x in merged if id(x) in enc.oids)
     rec.update(kind="run", before=before, coords=coords, enc=enc, shadow=shadow, exc=exc, after=after,
                order=order, data=data,
                coords_sexp="(%s)" % " ".join(mutgen.coord_sexp(c, enc) for c in coords))
@@ -158,6 +178,25 @@ def delete_record(p, path):
         if idx is not None:
             seen.add(idx)
             removed.add((id(nc.parent), idx))
+    # "located, distinct, in document order within each parent" on the coordinates in GATHER order
+    # (= C04spec.doc_ordered, evaluated by the extracted Coq function on the same coordinates)
+    ordered = True
+    tg = []
+    for nc in reversed(order):
+        ent = shadow.kids.get(id(nc.parent)) if nc.parent is not None else None
+        idx = shadow.child_index(nc.parent, nc.parentref) if ent is not None else None
+        if idx is None:
+            ordered = False
+            break
+        neg = (ent[0] == "S" and isinstance(nc.parentref, int) and not isinstance(nc.parentref, bool)
+               and nc.parentref < 0)
+        tg.append((id(nc.parent), idx, neg))
+    if ordered:
+        for a in range(len(tg)):
+            for b in range(a + 1, len(tg)):
+                if tg[a][0] == tg[b][0] and not (tg[a][1] < tg[b][1] and not tg[a][2]):
+                    ordered = False
+    rec["ordered"] = ordered
     wf = tree_containers_unique(data, shadow)
     expected = docenc.canon_doc_text(mutgen.ShadowEncoder(shadow, removed).node(data))
     rec.update(guard=guard, wf=wf, expected=expected, has_root=has_root, removed=removed,
@@ -188,7 +227,7 @@ def requests(case):
     rec = run_case(case)
     if rec["kind"] == "skip":
         return ["(mut-skip)"]
-    return ["(delete %s %s)" % (rec["before"], rec["coords_sexp"]),
+    return ["(delete %s %s %s)" % (rec["before"], rec["coords_sexp"], rec["mg_sexp"]),
             "(delete-spec %s %s)" % (rec["before"], rec["coords_sexp"])]
 
 
@@ -200,7 +239,8 @@ def observe(case):
         first = "(done %s)" % rec["after"]
     else:
         first = "(failed %s %s)" % (family(rec["exc"]), rec["after"])
-    second = "(%s %s %s)" % ("true" if rec["wf"] else "false", "true" if rec["guard"] else "false", rec["expected"])
+    second = "(%s %s %s %s)" % ("true" if rec["wf"] else "false", "true" if rec["guard"] else "false",
+                                "true" if rec["ordered"] else "false", rec["expected"])
     return [first, second]
 
 
@@ -257,7 +297,8 @@ def classify(case, obs):
         pk = "exact"
     n = len(rec["order"])
     out = "done" if rec["exc"] is None else "raise"
-    flags = ("" if rec["guard"] else ":unguarded") + (":unlocated" if unlocated(rec) else "")
+    flags = (("" if rec["guard"] else ":unguarded") + ("" if rec["ordered"] else ":unordered")
+             + (":unlocated" if unlocated(rec) else ""))
     return "%s:n=%s:%s%s" % (pk, n if n < 4 else "4+", out, flags)
 
 
@@ -302,6 +343,13 @@ CORPUS = [
     ("{s: !!set {x, y}, t: 1}", "s.x"),
     ("[1, 1, 300, 300, x, x]", "[.=1]"),
     ("{a: &n1 x, b: *n1, c: [*n1, y]}", "c[0]"),
+    # a key spelled like the anchor of a mapping elsewhere, in a parent without merge keys: an ordinary delete
+    ("{base: &m1 {x: 1}, o: {m1: 5, k: 2}}", "o.m1"),
+    ("{base: &m1 {x: 1}, u: {<<: *m1, z: 3}, o: {m1: 5, k: 2}}", "o.m1"),
+    ("{base: &m1 {x: 1}, u: {<<: *m1, z: 3}, o: {m1: 5, k: 2}}", "u.z"),
+    ("{base: &m1 {x: 1}, u: {<<: *m1, z: 3}, o: {m1: 5, k: 2}}", "u.x"),
+    ("{l: [&m1 {x: 1}], o: {m1: 5}}", "o.*"),
+    ("{m1: 1, base: &m1 {x: 1}}", "m1"),
 ]
 
 
@@ -316,7 +364,7 @@ def chunks(tier, seed):
     buf = []
     i = 0
     while i < n:
-        text = mutgen.gen_doc_text(rng, max_depth=rng.choice([2, 3, 3]))
+        text = mutgen.gen_doc_text(rng, max_depth=rng.choice([2, 3, 3]), map_anchors=rng.random() < 0.25)
         try:
             data = mutgen.load(text)
         except Exception:  # noqa
